@@ -63,7 +63,7 @@ def check(ctx: Ctx) -> str:
     binops = sorted(repo.const_map("nodes:_binop_to_func"))
     ctx.rule("R1", "operation table: every protocol method of each Undefined class resolves (aliases + MRO) to the documented behaviour; both operand orders of every template binary operator fail")
     fail_fn = repo.func(f"runtime:Undefined.{FAIL}")
-    ctx.check(any(isinstance(n, ast.Raise) and "self._undefined_exception(self._undefined_message)" in ast.unparse(n) for n in fail_fn.body), "fail helper raises", f"runtime:Undefined.{FAIL}", "raise",
+    ctx.check(any(isinstance(n, ast.Raise) and "self._undefined_exception(self._undefined_message)" in ast.unparse(n) for n in fail_fn.nnode.body), "fail helper raises", f"runtime:Undefined.{FAIL}", "raise",
               "_fail_with_undefined_error no longer raises self._undefined_exception(self._undefined_message)", fail_fn.loc())
     n = 0
     for cname in classes:
